@@ -122,6 +122,13 @@ theorem sy_fn (f : Elem) (hf : f.isOp = false) (ts q st : List Tok) :
     sy (.el f :: ts) q st = sy ts q (.el f :: st) := by
   simp [sy, hf]
 
+/-- operands go straight to the queue -/
+theorem sy_operands (ws : List String) (ts q st : List Tok) :
+    sy (ws.map .operand ++ ts) q st = sy ts (q ++ ws.map .operand) st := by
+  induction ws generalizing q with
+  | nil => simp
+  | cons w ws ih => simp only [List.map_cons, List.cons_append, sy]; rw [ih]; simp [List.append_assoc]
+
 /-- the invariant: reading a writing of `e` in context `(a, b)` appends the postfix form of `e` to the queue,
     split between what is already in the queue and what is still waiting on the stack (all with level `≥ b`) -/
 theorem sy_main {a b : Nat} {e : Expr} {ts0 : List Tok} (hp : Pr a b e ts0) : e.Shape →
@@ -131,6 +138,10 @@ theorem sy_main {a b : Nat} {e : Expr} {ts0 : List Tok} (hp : Pr a b e ts0) : e.
   | leaf a b s =>
     intro _ q st ts _ _
     exact ⟨q ++ [.operand s], [], pend_nil _, by simp [sy], by simp [Expr.pfx]⟩
+  | words a b ws =>
+    intro _ q st ts _ _
+    refine ⟨q ++ ws.map .operand, [], pend_nil _, ?_, by simp [Expr.pfx]⟩
+    exact sy_operands ws ts q st
   | const a b f hf hb =>
     intro _ q st ts _ _
     refine ⟨q, [.el f], ?_, by simp [sy_fn f hf], by simp [Expr.pfx]⟩
